@@ -243,8 +243,19 @@ Definition path_segs (p : str) : option (list str) :=
   end.
 
 (* the non-empty tokens of a template, parsed (RouterJSR311 skips empty tokens) *)
+(* RouterJSR311 reads a variable JAX-RS style: blanks around the name and around the expression do not count
+   (path_expression.go trims both), so "{ id }" declares id and "{n : [0-9]+}" declares n with [0-9]+ *)
+Definition jsr_trim_tk (t : tk) : tk :=
+  match t with
+  | TVar n => TVar (trim_space n)
+  | TRx n re => let re' := trim_space re in if str_eqb re' (L "*") then TTail (trim_space n) else TRx (trim_space n) re'
+  | TTail n => TTail (trim_space n)
+  | other => other
+  end.
+Definition jsr_parse_tk (s : str) : tk := jsr_trim_tk (parse_tk s).
+Definition jsr_parse_tok (s : str) : vtok := {| v_tk := jsr_parse_tk s; v_verb := None |}.
 Definition jsr_tpl (template : str) : list vtok :=
-  map (parse_tok false) (filter (fun t => negb (str_eqb t [])) (tokenize template)).
+  map jsr_parse_tok (filter (fun t => negb (str_eqb t [])) (tokenize template)).
 
 Definition jsr_admits_path (w : service) (r : route) (p : str) : bool :=
   let rt := jsr_tpl (s_root w) in
@@ -320,7 +331,7 @@ Definition etok_eqb (a b : etok) : bool :=
    token by token, path_expression.go's classification agrees with the documented forms (a boolean, evaluated on
    every generated case) *)
 Definition tokens_agree (template : str) : bool :=
-  forallb (fun s => match conv (v_tk (parse_tok false s)) with
+  forallb (fun s => match conv (jsr_parse_tk s) with
                     | Some e => etok_eqb (fst (etok_of s)) e
                     | None => false
                     end)
@@ -335,7 +346,7 @@ Definition tk_name (t : tk) : option str :=
 Definition opt_str_eqb (a b : option str) : bool :=
   match a, b with Some x, Some y => str_eqb x y | None, None => true | _, _ => false end.
 Definition names_agree (template : str) : bool :=
-  forallb (fun s => opt_str_eqb (snd (etok_of s)) (tk_name (v_tk (parse_tok false s))))
+  forallb (fun s => opt_str_eqb (snd (etok_of s)) (tk_name (jsr_parse_tk s)))
           (filter (fun t => negb (str_eqb t [])) (tokenize template)).
 Definition jsr_names_agree (w : service) (r : route) : bool :=
   names_agree (s_root w) && names_agree (r_rel r).
